@@ -473,13 +473,13 @@ fn run_protocol(ctx: &Ctx) {
 // (b) stop controller
 
 #[derive(Clone, Debug)]
-struct StopCfg {
-    stop_tokens: Vec<u32>,
-    regex: Option<&'static str>,
-    strings: Vec<&'static str>,
+pub(crate) struct StopCfg {
+    pub(crate) stop_tokens: Vec<u32>,
+    pub(crate) regex: Option<&'static str>,
+    pub(crate) strings: Vec<&'static str>,
 }
 
-fn stop_vocab() -> VocabSpec {
+pub(crate) fn stop_vocab() -> VocabSpec {
     let mut toks: Vec<Vec<u8>> = vec![];
     for s in ["a", "b", "x", "y", "1", "ab", "xa", "é", "ba"] {
         toks.push(s.as_bytes().to_vec());
@@ -496,7 +496,7 @@ fn stop_vocab() -> VocabSpec {
     VocabSpec { name: "STOP(17)".into(), tokens: toks, eos, extra_eos: vec![], canonical: false }
 }
 
-fn stop_cfgs(eos: u32) -> Vec<StopCfg> {
+pub(crate) fn stop_cfgs(eos: u32) -> Vec<StopCfg> {
     let mut v = vec![];
     let strs: Vec<Vec<&'static str>> = vec![vec![], vec!["x"], vec!["ab"], vec!["ab", "b"], vec!["é"], vec!["a", "aa"], vec!["xy", "y"], vec!["ba", "ab"], vec!["1a"]];
     let rxs: Vec<Option<&'static str>> = vec![None, Some("a?b"), Some("ab|b"), Some("[0-9]+"), Some("x.y"), Some("é+")];
